@@ -61,6 +61,12 @@ func genHist(r *Rng, tier string, idx int, args map[string]string) []string {
 			"new 5", "add " + Hx("x") + " 1 " + Hx("cx") + " 1", "add " + Hx("y") + " 2 " + Hx("cy") + " 2", "save",
 			"add " + Hx("y") + " 9 " + Hx("other") + " 9", "add " + Hx("z") + " 3 " + Hx("cz") + " 3", "load", "entries", "chrono"}
 	}
+	// directed: a cleared log is a SAVED empty log - searches recorded after the clear and not saved are gone after a load,
+	// on this handle and on a second one
+	if idx%40 == 23 {
+		return []string{"new 5", "add " + Hx("a") + " 1 - 0", "add " + Hx("b") + " 2 - 0", "save", "clear", "add " + Hx("c") + " 3 - 0", "load", "entries",
+			"add " + Hx("d") + " 1 - 0", "save", "clear", "new 7", "load", "entries", "max"}
+	}
 	npool := r.Range(2, 6)
 	pool := make([]string, npool)
 	for i := range pool {
@@ -601,6 +607,13 @@ func execHist(ops []string, mon *Mon) []string {
 						overlong = savedOverlong
 					}
 				} else if statErr != nil {
+					if fileIsTool {
+						// the last thing that happened to the file was a Save / Clear of this handle that reported success:
+						// "saving and loading gives back the same entries" needs the saved log to be there
+						if !histSameEntries(saved, after, true) {
+							hit("saved-log-not-loaded-back", map[string]interface{}{"op_index": opi, "saved": histShow(saved), "loaded": histShow(after), "file": "missing"})
+						}
+					}
 					if err != nil || !histSameEntries(before, after, true) || sh.MaxSize != maxBefore {
 						hit("load-without-file-changed-state", map[string]interface{}{"op_index": opi})
 					}
